@@ -33,11 +33,19 @@ import (
 )
 
 type tr2 struct {
+	guards  []string // source text of the enclosing `for cond` conditions
 	fset    *token.FileSet
 	errs    []string
 	kinds   map[string]string // Go variable → kind
 	subst   map[string]string // source text of an expression → Lean replacement (xs[i] in an index loop, result[a] in a less function)
-	partial bool              // the function slices: it returns Option
+	partial bool              // the function slices or returns (value, error): it returns Option
+	recv    string            // receiver name (its fields Entries / SortFn become parameters)
+	brk     string            // inside a `for cond` body: what `break` evaluates to ("" = not allowed)
+	loops   []string          // auxiliary loop definitions emitted in front of the function
+	fn      string            // Lean name of the function being translated
+	params  []string          // its parameters (binders) and their names, for the loop definitions
+	pnames  []string
+	usesFuel bool
 }
 
 var leanTypeOfKind = map[string]string{"ents": "List Entry", "omap": "List Entry", "int": "Int", "cids": "List Hash",
@@ -184,9 +192,25 @@ func (t *tr2) expr(e ast.Expr) (string, string) {
 			}
 		}
 		return t.fail(e, "binary operator"), ""
+	case *ast.SelectorExpr:
+		if id, ok := x.X.(*ast.Ident); ok && id.Name == t.recv && t.recv != "" && x.Sel.Name == "Entries" {
+			return "lEntries", "omap"
+		}
+		return t.fail(e, "selector"), ""
 	case *ast.CompositeLit:
 		if k := kindOfType(x.Type); k != "" && len(x.Elts) == 0 {
 			return zeroOfKind(k), k
+		}
+		if k := kindOfType(x.Type); (k == "ents" || k == "cids") && len(x.Elts) > 0 {
+			var es []string
+			for _, el := range x.Elts {
+				v, kv := t.expr(el)
+				if (k == "ents" && kv != "entry") || (k == "cids" && kv != "hash") {
+					return t.fail(e, "composite literal element"), ""
+				}
+				es = append(es, v)
+			}
+			return "[" + strings.Join(es, ", ") + "]", k
 		}
 		if st, ok := x.Type.(*ast.StructType); ok && (st.Fields == nil || len(st.Fields.List) == 0) {
 			return "()", "unit"
@@ -259,6 +283,9 @@ func (t *tr2) call(x *ast.CallExpr) (string, string) {
 		}
 		return t.fail(x, "bytes.Compare"), ""
 	}
+	if s == "entry.NewOrderedMap" && len(x.Args) == 0 {
+		return "([] : List Entry)", "omap"
+	}
 	sel, ok := x.Fun.(*ast.SelectorExpr)
 	if !ok {
 		return t.fail(x, "call"), ""
@@ -295,6 +322,12 @@ func (t *tr2) call(x *ast.CallExpr) (string, string) {
 			return recv + ".id", "bytes"
 		}
 	}
+	if sel.Sel.Name == "Slice" && kr == "omap" && len(x.Args) == 0 {
+		return recv, "ents"
+	}
+	if s == "entry.NewOrderedMap" && len(x.Args) == 0 {
+		return "([] : List Entry)", "omap"
+	}
 	if sel.Sel.Name == "UnsafeGet" && kr == "omap" && len(x.Args) == 1 {
 		if id, ok := x.Args[0].(*ast.Ident); ok && t.kinds[id.Name] == "key" {
 			return leanName(id.Name), "entry"
@@ -310,7 +343,7 @@ func isTerminator(s ast.Stmt) bool {
 	case *ast.ReturnStmt:
 		return true
 	case *ast.BranchStmt:
-		return x.Tok == token.CONTINUE
+		return x.Tok == token.CONTINUE || x.Tok == token.BREAK
 	}
 	return false
 }
@@ -408,6 +441,12 @@ func assignedOuter(stmts []ast.Stmt) []string {
 					if (s == "sorting.Reverse" || s == "sort.SliceStable") && len(c.Args) >= 1 {
 						mark(c.Args[0], declared)
 					}
+					if s == "sorting.Sort" && len(c.Args) == 3 {
+						mark(c.Args[1], declared)
+					}
+					if sel, ok := c.Fun.(*ast.SelectorExpr); ok && sel.Sel.Name == "Set" {
+						mark(sel.X, declared)
+					}
 				}
 			case *ast.IfStmt:
 				inner := map[string]bool{}
@@ -490,6 +529,14 @@ func (t *tr2) block(stmts []ast.Stmt, fall string, inLoop bool) string {
 	}
 	switch x := st.(type) {
 	case *ast.ReturnStmt:
+		if len(x.Results) == 2 && !inLoop && t.partial {
+			// (value, error): an error is `none`
+			if isNil(x.Results[1]) {
+				v, _ := t.expr(x.Results[0])
+				return "(some " + v + ")"
+			}
+			return "none"
+		}
 		if inLoop || len(x.Results) != 1 {
 			return t.fail(st, "return inside a loop, or not exactly one result")
 		}
@@ -527,6 +574,9 @@ func (t *tr2) block(stmts []ast.Stmt, fall string, inLoop bool) string {
 		if x.Tok == token.CONTINUE && inLoop && x.Label == nil {
 			return fall
 		}
+		if x.Tok == token.BREAK && inLoop && x.Label == nil && t.brk != "" {
+			return t.brk
+		}
 		return t.fail(st, "branch statement")
 	case *ast.DeclStmt:
 		gd, ok := x.Decl.(*ast.GenDecl)
@@ -554,13 +604,46 @@ func (t *tr2) block(stmts []ast.Stmt, fall string, inLoop bool) string {
 		}
 		return let(leanName(id.Name), "("+leanName(id.Name)+op+")")
 	case *ast.AssignStmt:
+		// e := xs[0]; xs = xs[1:]   (inside `for len(xs) > 0 && …`): take the head
+		if len(rest) > 0 && x.Tok == token.DEFINE && len(x.Lhs) == 1 && len(x.Rhs) == 1 {
+			if ix, ok := x.Rhs[0].(*ast.IndexExpr); ok && src(t.fset, ix.Index) == "0" {
+				if xs, ok := ix.X.(*ast.Ident); ok && t.kinds[xs.Name] == "ents" {
+					if nx, ok := rest[0].(*ast.AssignStmt); ok && nx.Tok == token.ASSIGN && src(t.fset, nx) == xs.Name+" = "+xs.Name+"[1:]" {
+						if !inLoop || t.brk == "" || !strings.Contains(t.brk+"|"+strings.Join(t.guards, "|"), "len("+xs.Name+") > 0") {
+							return t.fail(st, "head of a slice outside a loop guarded by its length")
+						}
+						e := x.Lhs[0].(*ast.Ident).Name
+						t.kinds[e] = "entry"
+						return "(match " + leanName(xs.Name) + " with\n    | [] => " + t.brk + "\n    | " + leanName(e) + " :: " + leanName(xs.Name) + " =>\n    " + t.block(rest[1:], fall, inLoop) + ")"
+					}
+				}
+			}
+		}
 		return t.assign(x, rest, fall, inLoop)
 	case *ast.ExprStmt:
 		c, ok := x.X.(*ast.CallExpr)
 		if !ok {
 			return t.fail(st, "expression statement")
 		}
+		if sel, ok := c.Fun.(*ast.SelectorExpr); ok && sel.Sel.Name == "Set" && len(c.Args) == 2 {
+			// m.Set(e.GetHash().String(), e) on an ordered map
+			if id, ok := sel.X.(*ast.Ident); ok && t.kinds[id.Name] == "omap" {
+				k, kk := t.expr(c.Args[0])
+				v, kv := t.expr(c.Args[1])
+				if kk == "hash" && kv == "entry" && k == v+".hash" {
+					return let(leanName(id.Name), "(omSet "+leanName(id.Name)+" "+v+")")
+				}
+			}
+			return t.fail(st, "Set on an ordered map with a key that is not the entry's hash")
+		}
 		switch selChain(c.Fun) {
+		case "sorting.Sort":
+			// sorting.Sort(l.SortFn, xs, true): the log's descending order (parameter sortDesc)
+			if len(c.Args) == 3 && src(t.fset, c.Args[0]) == t.recv+".SortFn" && src(t.fset, c.Args[2]) == "true" {
+				if id, ok := c.Args[1].(*ast.Ident); ok && t.kinds[id.Name] == "ents" {
+					return let(leanName(id.Name), "(goSort sortDesc "+leanName(id.Name)+")")
+				}
+			}
 		case "sorting.Reverse":
 			if id, ok := c.Args[0].(*ast.Ident); ok && len(c.Args) == 1 && t.kinds[id.Name] == "ents" {
 				return let(leanName(id.Name), leanName(id.Name)+".reverse")
@@ -607,6 +690,24 @@ func (t *tr2) block(stmts []ast.Stmt, fall string, inLoop bool) string {
 
 func (t *tr2) assign(x *ast.AssignStmt, rest []ast.Stmt, fall string, inLoop bool) string {
 	cont := func() string { return t.block(rest, fall, inLoop) }
+	// v, ok := m.Get(k) on an ordered map
+	if len(x.Lhs) == 2 && len(x.Rhs) == 1 && x.Tok == token.DEFINE {
+		if c, ok := x.Rhs[0].(*ast.CallExpr); ok {
+			sel, ok := c.Fun.(*ast.SelectorExpr)
+			if !ok || sel.Sel.Name != "Get" || len(c.Args) != 1 {
+				return t.fail(x, "two-value call")
+			}
+			m, km := t.expr(sel.X)
+			k, kk := t.expr(c.Args[0])
+			v, okv := x.Lhs[0].(*ast.Ident)
+			o, oko := x.Lhs[1].(*ast.Ident)
+			if km != "omap" || kk != "hash" || !okv || !oko || v.Name == "_" || o.Name == "_" {
+				return t.fail(x, "Get on something that is not an ordered map")
+			}
+			t.kinds[v.Name], t.kinds[o.Name] = "entry", "bool"
+			return "(let " + leanName(o.Name) + " := (get? " + m + " " + k + ").isSome;\n    (let " + leanName(v.Name) + " := (get? " + m + " " + k + ").getD default;\n    " + cont() + "))"
+		}
+	}
 	// a, ok := m[k]
 	if len(x.Lhs) == 2 && len(x.Rhs) == 1 && x.Tok == token.DEFINE {
 		ix, ok := x.Rhs[0].(*ast.IndexExpr)
@@ -802,6 +903,9 @@ func (t *tr2) rangeStmt(x *ast.RangeStmt, rest []ast.Stmt, fall string, inLoop b
 
 // for i := len(xs) - 1; i >= 0; i-- { … xs[i] … }
 func (t *tr2) forStmt(x *ast.ForStmt, rest []ast.Stmt, fall string, inLoop bool) string {
+	if x.Init == nil && x.Post == nil && x.Cond != nil {
+		return t.whileStmt(x, rest, fall, inLoop)
+	}
 	init, ok := x.Init.(*ast.AssignStmt)
 	post, ok2 := x.Post.(*ast.IncDecStmt)
 	if !ok || !ok2 || init.Tok != token.DEFINE || len(init.Lhs) != 1 || x.Cond == nil {
@@ -852,6 +956,104 @@ func (t *tr2) forStmt(x *ast.ForStmt, rest []ast.Stmt, fall string, inLoop bool)
 	return out
 }
 
+// for cond { … }  →  an auxiliary definition by recursion on fuel over the variables the body assigns:
+//   def f_loopN params : Nat → T → T | 0, st => st | fuel+1, vars => if cond then body else vars
+// `continue` and the end of the body call it again with the remaining fuel, `break` returns the variables.
+// (Not inside another loop.  The function gets a `fuel` parameter: what it computes when the fuel is
+// exhausted is the state reached so far — the theorems about it quantify over the fuel.)
+func (t *tr2) whileStmt(x *ast.ForStmt, rest []ast.Stmt, fall string, inLoop bool) string {
+	if inLoop {
+		return t.fail(x, "for-cond loop inside a loop")
+	}
+	if hasReturn(x.Body.List) {
+		return t.fail(x, "return inside a loop")
+	}
+	vars := assignedOuter(x.Body.List)
+	if len(vars) == 0 {
+		return t.fail(x, "for-cond loop that assigns nothing")
+	}
+	tup := tupleOf(vars)
+	var tys []string
+	for _, v := range vars {
+		ty := leanTypeOfKind[t.kinds[v]]
+		if ty == "" {
+			return t.fail(x, "loop variable of unknown kind: "+v)
+		}
+		tys = append(tys, ty)
+	}
+	tupTy := strings.Join(tys, " × ")
+	name := fmt.Sprintf("%s_loop%d", t.fn, len(t.loops)+1)
+	call := "(" + name + " " + strings.Join(t.pnames, " ") + " fuel " + tup + ")"
+	saved := t.saveKinds()
+	c, kc := t.expr(x.Cond)
+	if kc != "bool" {
+		return t.fail(x.Cond, "loop condition")
+	}
+	oldBrk := t.brk
+	t.brk = tup
+	t.guards = append(t.guards, src(t.fset, x.Cond))
+	body := t.block(x.Body.List, call, true)
+	t.guards = t.guards[:len(t.guards)-1]
+	t.brk = oldBrk
+	t.kinds = saved
+	t.usesFuel = true
+	t.loops = append(t.loops, fmt.Sprintf("def %s %s : Nat → %s → %s\n  | 0, st => st\n  | fuel + 1, %s =>\n    if %s then\n    %s\n    else %s\n",
+		name, strings.Join(t.params, " "), tupTy, tupTy, tup, c, body, tup))
+	return "(let " + tup + " := (" + name + " " + strings.Join(t.pnames, " ") + " fuel " + tup + ");\n    " + t.block(rest, fall, inLoop) + ")"
+}
+
+// uniquify the names an `if` initialiser declares (they may shadow: `if _, ok := m[k]; ok` after an
+// earlier `ok`), so that a shadowing `let` cannot capture a later use of the outer variable
+func uniquifyIfInits(fd *ast.FuncDecl) {
+	n := 0
+	ast.Inspect(fd.Body, func(node ast.Node) bool {
+		ifs, ok := node.(*ast.IfStmt)
+		if !ok || ifs.Init == nil {
+			return true
+		}
+		as, ok := ifs.Init.(*ast.AssignStmt)
+		if !ok || as.Tok != token.DEFINE {
+			return true
+		}
+		for _, l := range as.Lhs {
+			id, ok := l.(*ast.Ident)
+			if !ok || id.Name == "_" {
+				continue
+			}
+			n++
+			old, fresh := id.Name, fmt.Sprintf("%s%d", id.Name, n)
+			rename := func(root ast.Node) {
+				if root == nil {
+					return
+				}
+				ast.Inspect(root, func(m ast.Node) bool {
+					if sel, ok := m.(*ast.SelectorExpr); ok {
+						// not the field name
+						ast.Inspect(sel.X, func(k ast.Node) bool {
+							if i, ok := k.(*ast.Ident); ok && i.Name == old {
+								i.Name = fresh
+							}
+							return true
+						})
+						return false
+					}
+					if i, ok := m.(*ast.Ident); ok && i.Name == old {
+						i.Name = fresh
+					}
+					return true
+				})
+			}
+			id.Name = fresh
+			rename(ifs.Cond)
+			rename(ifs.Body)
+			if ifs.Else != nil {
+				rename(ifs.Else)
+			}
+		}
+		return true
+	})
+}
+
 // ---- functions ---------------------------------------------------------------------------------
 
 func usesSlicing(fd *ast.FuncDecl) bool {
@@ -866,10 +1068,23 @@ func usesSlicing(fd *ast.FuncDecl) bool {
 }
 
 func (t *tr2) funcDecl(fd *ast.FuncDecl, name string) string {
+	uniquifyIfInits(fd)
 	t.kinds = map[string]string{}
 	t.subst = map[string]string{}
-	t.partial = usesSlicing(fd)
-	var ps []string
+	t.loops = nil
+	t.usesFuel = false
+	t.fn = name
+	t.brk = ""
+	t.recv = ""
+	t.partial = usesSlicing(fd) || (fd.Type.Results != nil && len(fd.Type.Results.List) == 2)
+	var ps, names []string
+	if fd.Recv != nil && len(fd.Recv.List) == 1 && len(fd.Recv.List[0].Names) == 1 {
+		// a method of the log: the fields it reads are parameters — `Entries` (the entry map) and the
+		// descending less-function sorting.Sort builds from `SortFn`
+		t.recv = fd.Recv.List[0].Names[0].Name
+		ps = append(ps, "(lEntries : List Entry)", "(sortDesc : Entry → Entry → Bool)")
+		names = append(names, "lEntries", "sortDesc")
+	}
 	for _, f := range fd.Type.Params.List {
 		k := kindOfType(f.Type)
 		if k == "" {
@@ -879,10 +1094,12 @@ func (t *tr2) funcDecl(fd *ast.FuncDecl, name string) string {
 		for _, n := range f.Names {
 			t.kinds[n.Name] = k
 			ps = append(ps, "("+leanName(n.Name)+" : "+leanTypeOfKind[k]+")")
+			names = append(names, leanName(n.Name))
 		}
 	}
+	t.params, t.pnames = ps, names
 	ret := ""
-	if fd.Type.Results != nil && len(fd.Type.Results.List) == 1 {
+	if fd.Type.Results != nil && len(fd.Type.Results.List) >= 1 {
 		ret = leanTypeOfKind[kindOfType(fd.Type.Results.List[0].Type)]
 	}
 	if ret == "" {
@@ -892,7 +1109,20 @@ func (t *tr2) funcDecl(fd *ast.FuncDecl, name string) string {
 		ret = "Option (" + ret + ")"
 	}
 	body := t.block(fd.Body.List, "", false)
-	return fmt.Sprintf("def %s %s : %s :=\n  %s\n", name, strings.Join(ps, " "), ret, body)
+	fuel := ""
+	if t.usesFuel {
+		fuel = "(fuel : Nat) "
+	}
+	return strings.Join(t.loops, "\n") + fmt.Sprintf("def %s %s%s : %s :=\n  %s\n", name, fuel, strings.Join(ps, " "), ret, body)
+}
+
+func findMethod(f *ast.File, name string) *ast.FuncDecl {
+	for _, d := range f.Decls {
+		if fd, ok := d.(*ast.FuncDecl); ok && fd.Name.Name == name && fd.Recv != nil {
+			return fd
+		}
+	}
+	return nil
 }
 
 func renderSlices(repo string) string {
@@ -904,7 +1134,7 @@ func renderSlices(repo string) string {
 		names []string
 	}
 	for _, j := range []job{
-		{"log.go", []string{"maxClockTimeForEntries"}},
+		{"log.go", []string{"maxClockTimeForEntries", "traverse"}},
 		{"log_io.go", []string{"entryLastN", "entryLastNKeeping", "entrySliceRange"}},
 		{"entry/utils.go", []string{"Difference", "FindHeads"}},
 		{"entry/entry.go", []string{"uniqueCIDs"}},
@@ -916,6 +1146,9 @@ func renderSlices(repo string) string {
 		}
 		for _, n := range j.names {
 			fd := findFunc(f, n)
+			if fd == nil {
+				fd = findMethod(f, n)
+			}
 			if fd == nil || fd.Body == nil {
 				t.errs = append(t.errs, "function "+n+" not found in "+j.file)
 				continue
